@@ -92,7 +92,10 @@ def build_harness(w):
 
 
 def run_driver(w, binary, driver, infile, outfile, timeout=3600, extra_env=None, cwd=None):
-    env = dict(os.environ, VERIF_DRIVER=driver, VERIF_IN=infile, VERIF_OUT=outfile, VERIF_SEED=str(w.seed))
+    tmpd = w.path("tmp")
+    os.makedirs(tmpd, exist_ok=True)
+    env = dict(os.environ, VERIF_DRIVER=driver, VERIF_IN=infile, VERIF_OUT=outfile, VERIF_SEED=str(w.seed), TMPDIR=tmpd,
+               DBUS_SESSION_BUS_ADDRESS="unix:path=/nonexistent-verif-dbus")  # keyring's init() would otherwise dbus-launch a daemon per process
     if extra_env:
         env.update(extra_env)
     t = time.time()
